@@ -112,10 +112,43 @@ def run(tier):
             found = True
             rep.finding("document-crash", "document made the reader die under the limits", {"kind": "read", "config": cfg, "mode": "o2", "input_hex": C.hexs(docs[idx]), "stderr": err[:1500]})
         rep.note_cases(len(docs), set(C.sha(d)[:16] for d in docs))
+
+        # the gcd loop of ratio literals: operands at the edges of int64 (INT64_MIN has no negation), consecutive
+        # Fibonacci numbers (most subtract/shift steps), powers of two; the harness's own 10 s alarm reports a hang
+        if cfg in ("clj", "both"):
+            big = [2 ** 63, 2 ** 63 - 1, 2 ** 63 - 2, 2 ** 62, 2 ** 62 + 1, 7540113804746346429, 4660046610375530309, 3 ** 39, 6, 3, 2, 1]
+            rdocs = []
+            for a in big:
+                for b in big[1:] + [9, 10, 4611686018427387904]:
+                    for sg in (b"", b"-"):
+                        if a == 2 ** 63 and not sg:
+                            continue
+                        rdocs.append(sg + str(a).encode() + b"/" + str(b).encode())
+            rl = K.read_lines(rdocs)
+            for mode in ("o2", "san"):
+                impl, crashes = K.run_impl(cfg, rl, mode=mode, cpu_s=200, nchunks=16)
+                rep.count("ratio-gcd/%s-%s" % (cfg, mode), len(rl))
+                for idx, rc, err in crashes:
+                    found = True
+                    rep.finding("gcd/crash", "ratio literal %r made the reader die (rc %s)" % (rdocs[idx], rc),
+                                {"kind": "read", "config": cfg, "mode": mode, "input_hex": C.hexs(rdocs[idx]), "stderr": err[:1500]})
+                for d, a in zip(rdocs, impl):
+                    if a is not None and a.startswith("timeout"):
+                        found = True
+                        rep.finding("gcd/hang", "ratio literal %r did not return within 10 s" % d, {"kind": "read", "config": cfg, "mode": mode, "input_hex": C.hexs(d)})
+            mo, _ = K.run_model(cfg, rl)
+            for d, a, b in zip(rdocs, impl, mo):
+                if a is not None and not a.startswith("timeout") and a != b:
+                    rep.broken_obligation("correspondence/ratio", "model %r vs code %r on %r" % (b, a, d), False)
+                    break
+            rep.note_cases(len(rdocs), set(rdocs))
     U.finish_proof(rep, lean, found)
 
 
 def replay(path):
     r = json.load(open(path))
     print(json.dumps(r, indent=1)[:2000])
+    if r.get("input_hex"):
+        out = C.run_lines(C.harness("unity", r["config"], r.get("mode", "o2")), K.read_lines([bytes.fromhex(r["input_hex"])]), stack_kb=1024, cpu_s=60)
+        print("now:", [o[:200] for o in out.outputs], out.returncode)
     return 0
